@@ -13,6 +13,7 @@ structure OReq where
   orig : List Hdr           -- original headers effective on this hop
   origAll : List Hdr := []  -- all headers of the original request (every hop is rebuilt from it)
   added : List Hdr := []
+  optional : List String := []  -- inherited names that may or may not be carried over a redirect (C13 is an upper bound)
   despite : Bool := false
   callKind : String := "flow"   -- flow | nobody | body
   deriving Repr
@@ -82,7 +83,8 @@ def bodyFollows (q : OReq) : Bool :=
 def headerLineO (h : Hdr) : Bytes := strB h.name ++ [58, 32] ++ h.value ++ [13, 10]
 
 /-- the units the writer emits atomically: request line; each header line; blank line glued to the last -/
-def expectedUnits (q : OReq) : List Bytes :=
+def expectedUnits (q0 : OReq) (dropNames : List String := []) : List Bytes :=
+  let q := { q0 with orig := q0.orig.filter fun h => !dropNames.contains h.name }
   let hs := effHeaders q
   let host : List Hdr := if (hdrVals hs "host").isEmpty then [{ name := "host", value := strB (uriHost q.uri) }] else []
   let framing : List Hdr :=
@@ -107,7 +109,8 @@ def inheritAfterRedirect (q : OReq) (policy : String) (newUri : String) : List H
 structure HeadSt where
   req : Option OReq := none
   wire : Bytes := []
-  units : List Bytes := []      -- remaining units to be written
+  units : List Bytes := []      -- remaining units to be written (the first candidate; for messages)
+  cands : List (List Bytes) := []   -- remaining units of every admissible head (optional inherited fields present / absent)
   started : Bool := false       -- first write done: units are fixed
   rejected : Bool := false      -- analysis error seen (C17)
   complete : Bool := false
@@ -116,7 +119,10 @@ structure HeadSt where
 def startUnits (s : HeadSt) : HeadSt :=
   if s.started then s else
   match s.req with
-  | some q => { s with units := expectedUnits q, started := true }
+  | some q =>
+    let opt := q.optional.filter fun n => q.orig.any (·.name == n)
+    let drops : List (List String) := opt.foldl (fun acc n => acc ++ acc.map (· ++ [n])) [[]]
+    { s with units := expectedUnits q, cands := drops.map (expectedUnits q ·), started := true }
   | none => s
 
 /-- maximal run of whole units that fits `cap` -/
@@ -147,7 +153,8 @@ def walkHead (c : TCase) (checkInvalid : Bool) : HeadSt :=
     | "follow" =>
       (match s.req, t.op, t.res with
        | some q, [_, pol], ["flow", m, u] =>
-         { s with req := some { method := m, version := q.version, uri := u, origUri := q.origUri, orig := inheritAfterRedirect q pol u, origAll := q.origAll },
+         { s with req := some { method := m, version := q.version, uri := u, origUri := q.origUri, orig := inheritAfterRedirect q pol u, origAll := q.origAll,
+                                optional := ["authorization", "transfer-encoding"] },
                   wire := [], units := [], started := false, rejected := false, complete := false }
        | _, _, _ => s)
     | "write" | "cwrite" | "cbwrite" =>
@@ -165,21 +172,30 @@ def walkHead (c : TCase) (checkInvalid : Bool) : HeadSt :=
            if bad && s.rejected && o != "-" then { s with fail := some s!"head bytes were emitted for a request that an earlier call had refused: {t.raw.take 140}" } else
            if bad then s else
            let s := startUnits s
-           let (fit0, _) := greedyUnits s.units cap
-           -- long outputs are reported as length:hash; then the expected bytes stand in when the hash agrees
-           let out := if o.startsWith "#" then (if toHexOut false fit0.flatten == o then fit0.flatten else []) else unhex o
-           if s.complete then (if out.isEmpty && !o.startsWith "#" then s else { s with fail := some s!"bytes emitted after the head was complete: {t.raw.take 100}" }) else
-           let (fit, rest) := greedyUnits s.units cap
-           if fit.isEmpty then { s with fail := some s!"next line ({(s.units.headD []).length} bytes) does not fit {cap} bytes, expected OutputOverflow: {t.raw.take 100}" } else
-           if out != fit.flatten then
-             { s with fail := some s!"expected {fit.length} whole line(s) = {toHex (fit.flatten.take 60)}… got {toHex (out.take 60)}…: write {cap}" }
-           else { s with wire := s.wire ++ out, units := rest, complete := rest.isEmpty }
+           -- every admissible head still in play is tried; long outputs are reported as length:hash
+           let matching : List (List Bytes × Bytes) := s.cands.filterMap fun cand =>
+             let (fit, rest) := greedyUnits cand cap
+             if cand.isEmpty then (if o == "-" then some (rest, []) else none)
+             else if fit.isEmpty then none
+             else if o.startsWith "#" then (if toHexOut false fit.flatten == o then some (rest, fit.flatten) else none)
+             else if unhex o == fit.flatten then some (rest, fit.flatten) else none
+           (match matching with
+            | (rest, out) :: _ =>
+              { s with wire := s.wire ++ out, units := rest, cands := matching.map (·.1), complete := matching.all (·.1.isEmpty) }
+            | [] =>
+              let out := if o.startsWith "#" then [] else unhex o
+              if s.complete then { s with fail := some s!"bytes emitted after the head was complete: {t.raw.take 100}" } else
+              let (fit, _) := greedyUnits s.units cap
+              if fit.isEmpty then { s with fail := some s!"next line ({(s.units.headD []).length} bytes) does not fit {cap} bytes, expected OutputOverflow: {t.raw.take 100}" } else
+              { s with fail := some s!"expected {fit.length} whole line(s) = {toHex (fit.flatten.take 60)}… got {toHex (out.take 60)}…: write {cap}" })
          | ["fault", "api:OutputOverflow"] =>
            if bad && checkInvalid then { s with fail := some s!"invalid request reported as output overflow instead of being refused: {t.raw.take 100}" } else
            if bad then s else
            let s := startUnits s
+           let still := s.cands.filter fun cand => !cand.isEmpty && (cand.headD []).length > cap
            if s.complete then { s with fail := some "OutputOverflow after the head was complete" } else
-           if (s.units.headD []).length ≤ cap then { s with fail := some s!"OutputOverflow although the next line ({(s.units.headD []).length} bytes) fits {cap} bytes" } else s
+           if still.isEmpty then { s with fail := some s!"OutputOverflow although the next line ({(s.units.headD []).length} bytes) fits {cap} bytes" }
+           else { s with cands := still, units := still.headD [] }
          | "fault" :: _ =>
            if !bad then { s with fail := some s!"a valid request was refused: {t.raw.take 140}" }
            else if !s.wire.isEmpty then { s with fail := some "request refused after bytes were emitted" }
@@ -191,7 +207,9 @@ def walkHead (c : TCase) (checkInvalid : Bool) : HeadSt :=
        | some q, ["bool", b] =>
          if invalidReq q then (if b == "true" && checkInvalid then { s with fail := some "an invalid request became ready to advance" } else s)
          else if !s.started then s
-         else if (b == "true") == s.complete then s else { s with fail := some s!"ready={b} but head complete={s.complete}" }
+         else if (b == "true") && s.cands.any (·.isEmpty) then s
+         else if (b == "false") && s.cands.any (!·.isEmpty) then s
+         else { s with fail := some s!"ready={b} but head complete={s.complete}" }
        | _, _ => s)
     | _ => s) ({} : HeadSt)
 
